@@ -376,8 +376,34 @@ def run(ctx):
         res.violation("C03:overlapping-requests:" + v_["key"].split(":")[-1], "a request overlapping another one is not answered with the response it gets alone",
                       v_["input"], observed=v_["observed"], required=v_["required"], replay=dict(v_["replay"] or {}, handlers="shipped"))
     log_functions(ctx, res)
+    type_prefixed_selectors(ctx, res)
     res.degraded = list(pyg.degraded) + [d for d in res.degraded if d not in pyg.degraded]
     return res
+
+
+def type_prefixed_selectors(ctx, res):
+    """The documented full list ends with url.URLTypeRewriter (selectors written /0/README, /1/docs as old clients send them):
+    in one server process the n-th such request is answered like the first."""
+    tree = pyg.Tree()
+    try:
+        trees.standard(tree, hostile_content=False)
+        handlers = pyg.FULL_HANDLERS.rstrip("]") + ", url.URLTypeRewriter]"
+        cfg = pyg.make_config(tree.root, handlers, **{"handlers.dir.DirHandler|cachetime": "0"})
+        pyg.fresh_process_state()
+        rqs = [b"/0/README\r\n", b"/1/docs\r\n", b"GET /0/README HTTP/1.0\r\n\r\n", b"/0/README\t+\r\n", b"/9/data.bin\r\n", b"/0/nothing-here\r\n"]
+        rounds = []
+        for _ in range(3):
+            rounds.append([mask(pyg.request(rq, cfg, reset=False).out or b"") for rq in rqs])
+        for k, rq in enumerate(rqs):
+            res.evaluations += 1
+            res.nontrivial.add(("type-prefixed", rq))
+            if not (rounds[0][k] == rounds[1][k] == rounds[2][k]) or (k == 0 and b"does not exist" in rounds[0][k]):
+                res.violation("C03:history-dependent:URLTypeRewriter", "the answer to a type-prefixed selector depends on the requests served before it",
+                              {"handlers": "full + URLTypeRewriter", "request": rq}, observed=[r_[k][:80] for r_ in rounds], required="the same answer every time",
+                              replay={"handlers": "full", "request_latin1": rq.decode("latin-1"), "tls": False})
+    finally:
+        tree.close()
+        pyg.fresh_process_state()
 
 
 def log_functions(ctx, res):
